@@ -24,6 +24,7 @@ func init() {
 			"N6 validators and filters decode each value as the kind they test for (no json.Number, no interface{} destination); N7 StructType.IsAssignableFrom refuses on differing map dimensions only after the member types refused. " +
 			"N8 every iteration over a struct's members in an IsAssignableFrom implementation applies the relation, records a failure or found the TypeIds equal; N9 no return after a FilterJson call in package core hands back the call's input. " +
 			"N10 in the projection family a reader of ArrayType.Elem also reads ArrayType.Dim. " +
+			"N11 memo-key completeness for members skipped in a type relation (the key determines what the skipped check depends on). " +
 			"NOT decided: idempotence, validity of the rebuilt JSON, int/float normalisation - all value-level.",
 		Assumptions: commonAssumptions,
 	}
@@ -38,6 +39,7 @@ func init() {
 			"T6 no function reachable from Pipeline.topoSort reads BindStms.Table (the sort runs before the binding tables are built; premise re-established on every run). " +
 			"T7 the in-place topological sort re-examines the slot it filled by shifting; T8 MergeMapCallSources consults KnownLength() between obtaining a source set and handing it back as the survivor. " +
 			"T9 no arm of SplitExp.FindTypedRefs hands the element type unchanged to the value's FindTypedRefs (one known finding: the DisabledExp arm); T10 (= N8) every struct member is checked. " +
+			"T11 memo-key completeness for skipped members; T12 no ArrayDim test sits only in the not-a-map arm of a MapDim test on the same type (the outer dimension is examined first). " +
 			"NOT decided: soundness of the whole relation, projection, array dimensions, error locations: this decides a few mechanisms, not the property's behaviour.",
 		Assumptions: commonAssumptions,
 	}
@@ -117,6 +119,7 @@ func runC17(c *an.Ctx) {
 	ruleMembersAll(c, "N8")
 	ruleN9(c)
 	ruleN10(c)
+	ruleMemoKey(c, "N11", "martian/syntax")
 }
 
 func ruleN1(c *an.Ctx) {
@@ -465,6 +468,8 @@ func runC07(c *an.Ctx) {
 	ruleT8(c)
 	ruleT9(c)
 	ruleMembersAll(c, "T10")
+	ruleMemoKey(c, "T11", "martian/syntax")
+	ruleT12(c, "T12")
 }
 
 func ruleT2(c *an.Ctx) {
